@@ -8,6 +8,9 @@ use base64::{Engine as _, engine::general_purpose::STANDARD as BASE64_STANDARD};
 pub struct ColumnGroupBuilder {
     // Accumulate raw string values per (column, zone); we'll assemble typed blocks in finish()
     groups: BTreeMap<(ColumnKey, u32), Vec<String>>,
+    // Row indexes (per group) whose value was NULL. Typed blocks detect nulls from the
+    // unparsable empty string; VarBytes blocks need this to tell NULL from "".
+    null_rows: BTreeMap<(ColumnKey, u32), Vec<usize>>,
     types_by_key: std::collections::HashMap<(String, String), PhysicalType>,
 }
 
@@ -15,6 +18,7 @@ impl ColumnGroupBuilder {
     pub fn new() -> Self {
         Self {
             groups: BTreeMap::new(),
+            null_rows: BTreeMap::new(),
             types_by_key: std::collections::HashMap::new(),
         }
     }
@@ -24,6 +28,7 @@ impl ColumnGroupBuilder {
     ) -> Self {
         Self {
             groups: BTreeMap::new(),
+            null_rows: BTreeMap::new(),
             types_by_key,
         }
     }
@@ -48,7 +53,13 @@ impl ColumnGroupBuilder {
             ScalarValue::Timestamp(ts) => ts.to_string(),
             ScalarValue::Float64(f) => f.to_string(),
             ScalarValue::Boolean(b) => b.to_string(),
-            ScalarValue::Null => String::new(),
+            ScalarValue::Null => {
+                self.null_rows
+                    .entry((job.key.clone(), job.zone_id))
+                    .or_default()
+                    .push(values.len());
+                String::new()
+            }
             ScalarValue::Binary(bytes) => BASE64_STANDARD.encode(bytes),
         };
         values.push(s);
@@ -56,8 +67,10 @@ impl ColumnGroupBuilder {
 
     pub fn finish(self) -> BTreeMap<(ColumnKey, u32), (Vec<u8>, Vec<u32>, Vec<String>)> {
         let mut out: BTreeMap<(ColumnKey, u32), (Vec<u8>, Vec<u32>, Vec<String>)> = BTreeMap::new();
+        let mut null_rows = self.null_rows;
         for (key_zone, values) in self.groups {
             let (key, _zone) = &key_zone;
+            let null_idx = null_rows.remove(&key_zone).unwrap_or_default();
             let phys = self
                 .types_by_key
                 .get(key)
@@ -219,12 +232,23 @@ impl ColumnGroupBuilder {
                         lengths.push(b.len() as u32);
                         payload.extend_from_slice(b);
                     }
-                    let aux_len = (row_count as usize) * 4;
+                    // NULL rows are recorded in a bitmap that follows the length table in
+                    // the aux section (only present when FLAG_HAS_NULLS is set), so that a
+                    // NULL can be told apart from an empty string on read.
+                    let any_nulls = !null_idx.is_empty();
+                    let mut nulls: Vec<u8> = Vec::new();
+                    if any_nulls {
+                        nulls = vec![0u8; ((row_count as usize) + 7) / 8];
+                        for i in &null_idx {
+                            nulls[i / 8] |= 1 << (i % 8);
+                        }
+                    }
+                    let aux_len = (row_count as usize) * 4 + nulls.len();
                     let mut buf: Vec<u8> =
                         Vec::with_capacity(ColumnBlockHeader::LEN + aux_len + payload.len());
                     let header = ColumnBlockHeader::new(
                         PhysicalType::VarBytes,
-                        false,
+                        any_nulls,
                         row_count,
                         aux_len as u32,
                     );
@@ -232,6 +256,7 @@ impl ColumnGroupBuilder {
                     for len in &lengths {
                         buf.extend_from_slice(&len.to_le_bytes());
                     }
+                    buf.extend_from_slice(&nulls);
                     buf.extend_from_slice(&payload);
                     out.insert(key_zone, (buf, lengths, values));
                 }
